@@ -4,11 +4,11 @@ package dbSync
 // Also serves C06 (incremental filter application) and C08 (offset tagging).
 //
 //vf:use tinyredis
-//vf:job C03 quick VF_C03_Parse k=1 cfg=0..7
-//vf:job C03 quick VF_C03_Parse k=2 cfg=0..7
-//vf:job C03 thorough VF_C03_Parse k=3 cfg=0..7
-//vf:job C06 quick VF_C03_Parse k=1 cfg=0..7
-//vf:job C06 thorough VF_C03_Parse k=2 cfg=0..7
+//vf:job C03 quick VF_C03_Parse k=1 cfg=0..9
+//vf:job C03 quick VF_C03_Parse k=2 cfg=0..9
+//vf:job C03 thorough VF_C03_Parse k=3 cfg=0..9
+//vf:job C06 quick VF_C03_Parse k=1 cfg=0..9
+//vf:job C06 thorough VF_C03_Parse k=2 cfg=0..9
 //vf:job C08 quick VF_C03_Parse k=2 cfg=0,3
 //vf:replayE C03 VF_C03_Parse
 //vf:replayE C06 VF_C03_Parse
@@ -105,6 +105,12 @@ func vfConfig(cfg int) vfCfg {
 	case 7:
 		c.targetDB = 0
 		c.startDb = 0
+	case 8: // the fixed target database is itself a filtered source database
+		c.targetDB = 2
+		c.dbBlack = []string{"2"}
+	case 9:
+		c.targetDB = 0
+		c.dbWhite = []string{"1"}
 	}
 	conf.Options.FilterDBWhitelist = c.dbWhite
 	conf.Options.FilterDBBlacklist = c.dbBlack
